@@ -129,6 +129,8 @@ const (
 	OpClosedTxUse = "closeduse"
 	OpBulkPut     = "bulkput"  // Path, Key (prefix), From, To, KN (key length), Val
 	OpBulkDel     = "bulkdel"  // Path, Key (prefix), From, To, KN
+	OpWriteTo     = "writeto"  // Tx: copy the transaction to a discarding writer (n must equal Tx.Size())
+	OpTearMeta    = "tearmeta" // U: close, overwrite the first U bytes of the OLDER meta slot with a would-be newer meta, reopen (Opts)
 	OpArmFault    = "armfault" // U: the U-th I/O call from now fails once (kinds in Note, default all but mmap)
 )
 
